@@ -514,7 +514,7 @@ def check_bool(case):
 # =================================================================================================
 
 NAMES = ["a", "b", "Ab", "c", "ab"]
-ATTRS = ["x", "X1", "y", "ab", "A", 1, 2, 10]
+ATTRS = ["x", "X1", "y", "ab", "A", 1, 2, 10, 0, ""]   # 0 and "" : falsy literals are ordinary attribute values
 _STRS = ["a", "A", "b", "x", "X", "ab", "1", "y", ""]
 
 _fnspec = st.one_of(st.just(["raise"]), st.tuples(st.just("sw"), st.sampled_from(["a", "x", "A"])).map(list),
